@@ -103,6 +103,7 @@ func PlanClient(s Src, o ClientOpts) *ClientPlan {
 	for i := range p.Plugin.Steps {
 		p.Plugin.Steps[i].HasSignals = true
 		p.Plugin.Steps[i].Emitter = true
+		p.Plugin.Steps[i].SameSignalID = i%2 == 0
 	}
 	if o.V1 {
 		p.Version = 1
